@@ -19,6 +19,7 @@ import (
 type Options struct {
 	MaskImports bool // drop import declarations (and File.Imports)
 	SortImports bool // order import specs inside each import declaration by path, name
+	KeepParens  bool // do not elide ParenExpr nodes (token-level identity)
 }
 
 var (
@@ -66,7 +67,7 @@ func (w *writer) val(v reflect.Value) {
 		w.b.WriteString("~")
 		return
 	case parenType:
-		if !v.IsNil() {
+		if !v.IsNil() && !w.o.KeepParens {
 			w.val(v.Elem().FieldByName("X"))
 			return
 		}
